@@ -354,7 +354,7 @@ MergeScan ==
 \* outlive that newer one's loss in a power failure (Bug "MergeMarksUnflushed": no flush)
 MergeMark ==
   /\ st = "open" /\ merge.on /\ merge.ph = "mark"
-  /\ cur = Idle /\ pc = <<>> /\ batch = NoBatch              \* the flush takes the database lock
+  /\ Has("MergeMarksUnflushed") \/ (cur = Idle /\ pc = <<>> /\ batch = NoBatch)   \* the flush takes the database lock
   /\ mdir' = [mdir EXCEPT !.marker = [nm |-> merge.nm, cnt |-> merge.out + 1]]
   /\ durable' = IF Has("MergeMarksUnflushed") THEN durable ELSE [durable EXCEPT ![active] = Len(dir[active])]
   /\ merge' = NoMerge
